@@ -1341,6 +1341,29 @@ func main() {
 		b.WriteString("def " + fn.name + "Decisions : List String := " + leanStrList(decisions(fd.Body)) + "\n")
 		b.WriteString("def " + fn.name + "Calls : List String := " + leanStrList(calls) + "\n")
 	}
+	{
+		// how the query command writes --output-file: every call that mentions the flag variable, and what is
+		// written to the handle
+		var uses []string
+		for _, d := range cmdq.Decls {
+			ast.Inspect(d, func(n ast.Node) bool {
+				c, ok := n.(*ast.CallExpr)
+				if !ok {
+					return true
+				}
+				for _, a := range c.Args {
+					if id, ok := a.(*ast.Ident); ok && id.Name == "outputFile" {
+						uses = append(uses, src(c))
+					}
+				}
+				if strings.HasPrefix(src(c.Fun), "file.") {
+					uses = append(uses, src(c))
+				}
+				return true
+			})
+		}
+		b.WriteString("def outputFileUses : List String := " + leanStrList(uses) + "\n")
+	}
 	b.WriteString("def getFilesCallback : List String := " + leanStrList(getFilesCallback(construct)) + "\n")
 	b.WriteString("def docAccessors : List (String × String × String) := [")
 	for i, a := range docAccessors(parseFile(filepath.Join(sp, "model", "javadoc.go"))) {
